@@ -15,9 +15,11 @@ def gen_case(t, families=None, criterion="any", extra_metric=True, cost=True, fl
     ctx.table = tb
     ctx.use_mra = t.bool()
     ctx.n_workers = t.int(1, 4)
+    # the scheduler's configuration space need not list the hyper-parameters in the order of the table's columns
+    cs_sched = dict(reversed(list(tb.config_space.items()))) if t.bool() else tb.config_space
     ctx.spec = gen_sched.gen_sched(
         t,
-        tb.config_space,
+        cs_sched,
         max_t=tb.num_fidelities,
         max_resource_attr="epochs" if ctx.use_mra else None,
         second_metric="acc" if extra_metric else None,
